@@ -1623,4 +1623,176 @@ theorem pFlat_of_linZero (g : Tf ℝ) : ∀ (ts : List LinkType) (v : List ℝ),
       · exact pRow_nonfree g hf _
     rw [hrow, List.take_append_drop]
 
+/-! ## 8. the mass matrix: `mass.matrix · y`, row by row, as projections of forces -/
+section massrep
+
+/-- `Σ_{i<n} f i` for forces -/
+def frsum : Nat → (Nat → Force ℝ) → Force ℝ
+  | 0, _ => Force.zero
+  | n + 1, f => frsum n f + f n
+
+theorem dotF_fadd (c : Motion ℝ) (a b : Force ℝ) :
+    Motion.dotF c (a + b) = Motion.dotF c a + Motion.dotF c b := by
+  simp only [Motion.dotF, Force.add_def, V3.dot, V3.add_def]; ring
+
+theorem dotF_frsum (c : Motion ℝ) (n : Nat) (f : Nat → Force ℝ) :
+    Motion.dotF c (frsum n f) = rsum n (fun a => Motion.dotF c (f a)) := by
+  induction n with
+  | zero => simp only [frsum, rsum, dotF_zero]
+  | succ n ih => simp only [frsum, rsum, dotF_fadd, ih]
+
+theorem rotF_fzero (g : Tf ℝ) : rotF g Force.zero = Force.zero := by
+  simp only [rotF, C05L.rotF, Force.zero, rotate_zero]
+
+theorem rotF_frsum (g : Tf ℝ) (n : Nat) (f : Nat → Force ℝ) :
+    rotF g (frsum n f) = frsum n (fun a => rotF g (f a)) := by
+  induction n with
+  | zero => simp only [frsum, rotF_fzero]
+  | succ n ih => simp only [frsum, rotF_fadd, ih]
+
+/-- links `l`, `a` lie on one root-to-leaf path -/
+def relB (ps : List Int) (l a : Nat) : Bool :=
+  if a ≤ l then (ancs ps l).contains a else (ancs ps a).contains l
+
+/-- the force that the dofs of link `a`, moving with `Y`, contribute to the rows of link `l` -/
+noncomputable def Fla (ps : List Int) (C : List (Inertia ℝ)) (cdof : List (List (Motion ℝ)))
+    (Y : Nat → Nat → ℝ) (l a : Nat) : Force ℝ :=
+  if relB ps l a then Inertia.mul (C.getD (max l a) dI) (Ulink cdof Y a) else Force.zero
+
+noncomputable def Phi (ps : List Int) (C : List (Inertia ℝ)) (cdof : List (List (Motion ℝ)))
+    (Y : Nat → Nat → ℝ) (n l : Nat) : Force ℝ :=
+  frsum n fun a => Fla ps C cdof Y l a
+
+theorem bil_eq_dotF (I : Inertia ℝ) (a b : Motion ℝ) : bil I a b = Motion.dotF a (Inertia.mul I b) := rfl
+
+/-- one block of one row of `mass.matrix · y` (composite inertias symmetric) -/
+theorem rowBlock_eq (ps : List Int) (C : List (Inertia ℝ)) (cdof : List (List (Motion ℝ)))
+    (Y : Nat → Nat → ℝ) (hC : ∀ k, SymmI (C.getD k dI)) (l r a : Nat) :
+    rsum (wAt cdof a) (fun s => massOff ps C cdof l r a s * Y a s)
+      = Motion.dotF (cAt cdof l r) (Fla ps C cdof Y l a) := by
+  rcases Nat.lt_trichotomy a l with hal | hal | hal
+  · have hrel : relB ps l a = (ancs ps l).contains a := by simp [relB, Nat.le_of_lt hal]
+    have hmax : max l a = l := Nat.max_eq_left (Nat.le_of_lt hal)
+    unfold Fla
+    rw [hrel, hmax]
+    by_cases hc : (ancs ps l).contains a = true
+    · rw [if_pos hc, ← bil_eq_dotF, bil_symm (hC l)]
+      unfold Ulink
+      rw [bil_mrsum_left]
+      apply rsum_congr; intro s _
+      rw [massOff_lt ps C cdof l r a s hal, if_pos hc, bil_mulr_left]; ring
+    · rw [if_neg hc, dotF_zero]
+      have : ∀ s, s < wAt cdof a → massOff ps C cdof l r a s * Y a s = 0 := by
+        intro s _
+        rw [massOff_lt ps C cdof l r a s hal, if_neg hc]; ring
+      rw [rsum_congr this, rsum_zero]
+  · subst hal
+    have hm : (ancs ps a).contains a = true := by
+      rw [List.contains_iff_mem]; exact self_mem_ancs ps a
+    have hrel : relB ps a a = true := by simp only [relB, Nat.le_refl, if_true, hm]
+    unfold Fla
+    rw [hrel, if_pos rfl, Nat.max_self, ← bil_eq_dotF]
+    unfold Ulink
+    rw [bil_mrsum_right]
+    apply rsum_congr; intro s _
+    rw [massOff_diag ps C cdof a r s (hC a), bil_mulr_right]; ring
+  · have hrel : relB ps l a = (ancs ps a).contains l := by simp [relB, Nat.not_le.mpr hal]
+    have hmax : max l a = a := Nat.max_eq_right (Nat.le_of_lt hal)
+    unfold Fla
+    rw [hrel, hmax]
+    by_cases hc : (ancs ps a).contains l = true
+    · rw [if_pos hc, ← bil_eq_dotF]
+      unfold Ulink
+      rw [bil_mrsum_right]
+      apply rsum_congr; intro s _
+      rw [massOff_symm, massOff_lt ps C cdof a s l r hal, if_pos hc, bil_mulr_right]; ring
+    · rw [if_neg hc, dotF_zero]
+      have : ∀ s, s < wAt cdof a → massOff ps C cdof l r a s * Y a s = 0 := by
+        intro s _
+        rw [massOff_symm, massOff_lt ps C cdof a s l r hal, if_neg hc]; ring
+      rw [rsum_congr this, rsum_zero]
+
+/-- one entry of `mass.matrix · y` -/
+theorem row_eq (ps : List Int) (C : List (Inertia ℝ)) (cdof : List (List (Motion ℝ)))
+    (arm : List (List ℝ)) (Y : Nat → Nat → ℝ) (hC : ∀ k, SymmI (C.getD k dI)) (n l r : Nat)
+    (hl : l < n) (hr : r < wAt cdof l) :
+    nsum n (wAt cdof) (fun a s => massEntry ps C cdof arm l r a s * Y a s)
+      = Motion.dotF (cAt cdof l r) (Phi ps C cdof Y n l) + armAt arm l r * Y l r := by
+  have h1 : nsum n (wAt cdof) (fun a s => massEntry ps C cdof arm l r a s * Y a s)
+      = nsum n (wAt cdof) (fun a s => massOff ps C cdof l r a s * Y a s)
+        + nsum n (wAt cdof) (fun a s => if a = l ∧ s = r then armAt arm l r * Y a s else 0) := by
+    rw [← nsum_add]
+    apply nsum_congr; intro a s _ _
+    rw [massEntry_eq]
+    split <;> ring
+  rw [h1, nsum_single n (wAt cdof) l r hl hr (fun a s => armAt arm l r * Y a s)]
+  congr 1
+  unfold nsum Phi
+  rw [dotF_frsum]
+  apply rsum_congr; intro a _
+  exact rowBlock_eq ps C cdof Y hC l r a
+
+theorem dofIdx_map {β : Type} (n : Nat) (w : Nat → Nat) (f : Nat × Nat → β) :
+    (dofIdx n w).map f
+      = ((List.range n).map fun l => (List.range (w l)).map fun r => f (l, r)).flatten := by
+  unfold dofIdx
+  rw [List.flatMap_def, List.map_flatten, List.map_map]
+  congr 1
+  apply List.map_congr_left
+  intro l _
+  simp only [Function.comp, List.map_map]
+  rfl
+
+theorem list_eq_range_map {β : Type} (xs : List β) (d : β) :
+    xs = (List.range xs.length).map fun r => xs.getD r d := by
+  apply List.ext_getElem
+  · simp
+  · intro i h1 h2
+    simp only [List.getElem_map, List.getElem_range]
+    exact getElem_eq_getD xs d i h1
+
+theorem nested_eq_range_map (N : List (List ℝ)) (w : Nat → Nat)
+    (hw : ∀ l, l < N.length → (N.getD l []).length = w l) :
+    N = (List.range N.length).map fun l => (List.range (w l)).map fun r => (N.getD l []).getD r 0 := by
+  apply List.ext_getElem
+  · simp
+  · intro i h1 h2
+    simp only [List.getElem_map, List.getElem_range]
+    rw [← hw i h1, ← getElem_eq_getD N [] i h1]
+    exact list_eq_range_map N[i] 0
+
+/-- **`mass.matrix · y`, row by row**: entry `(l, r)` is the projection of the force `Φ_l` on the dof row
+`cdof_{l,r}`, plus `armature · y` -/
+theorem matVec_massMatrix (ps : List Int) (cinr : List (Inertia ℝ)) (cdof : List (List (Motion ℝ)))
+    (arm : List (List ℝ)) (N : List (List ℝ)) (hsym : ∀ x ∈ cinr, SymmI x)
+    (hN : N.length = cdof.length) (hw : ∀ l, l < N.length → (N.getD l []).length = wAt cdof l) :
+    matVec (massMatrix ps cinr cdof arm) N.flatten
+      = ((List.range cdof.length).map fun l => (List.range (wAt cdof l)).map fun r =>
+          Motion.dotF (cAt cdof l r)
+              (Phi ps (crb ps cinr) cdof (fun a s => (N.getD a []).getD s 0) cdof.length l)
+            + armAt arm l r * (N.getD l []).getD r 0).flatten := by
+  have hM : massMatrix ps cinr cdof arm
+      = (dofIdx cdof.length (wAt cdof)).map fun lr => (dofIdx cdof.length (wAt cdof)).map fun as =>
+          massEntry ps (crb ps cinr) cdof arm lr.1 lr.2 as.1 as.2 := rfl
+  have hflat : N.flatten = (dofIdx cdof.length (wAt cdof)).map
+      fun lr => (N.getD lr.1 []).getD lr.2 0 := by
+    rw [dofIdx_map, ← hN]
+    exact congrArg List.flatten (nested_eq_range_map N (wAt cdof) hw)
+  rw [hM, hflat]
+  unfold matVec
+  rw [List.map_map, ← dofIdx_map (f := fun lr => Motion.dotF (cAt cdof lr.1 lr.2)
+      (Phi ps (crb ps cinr) cdof (fun a s => (N.getD a []).getD s 0) cdof.length lr.1)
+    + armAt arm lr.1 lr.2 * (N.getD lr.1 []).getD lr.2 0)]
+  apply List.map_congr_left
+  intro lr hlr
+  obtain ⟨l, r⟩ := lr
+  obtain ⟨hl, hr⟩ := (mem_dofIdx _ _ l r).mp hlr
+  simp only [Function.comp]
+  rw [dot_map_map cdof.length (wAt cdof) (fun as => massEntry ps (crb ps cinr) cdof arm l r as.1 as.2)
+    (fun lr => (N.getD lr.1 []).getD lr.2 0)]
+  exact row_eq ps (crb ps cinr) cdof arm (fun a s => (N.getD a []).getD s 0)
+    (crb_symm ps cinr hsym) cdof.length l r hl hr
+
+end massrep
+
 end Brax.C05G
